@@ -35,7 +35,7 @@ VALID = ["csiso2022jp", "ISO-2022-JP", "utf-8", "UTF-8", "utf8", "windows-1252",
 UTF16 = ["utf-16", "UTF-16", "utf-16le", "utf-16be", "UTF-16LE", "unicode", "ucs-2"]
 INVALID = ["bogus", "utf8x", "utf-32", "none", "x-nope", "utf 8", "latin-99",
            # differ from a valid label only by something a careless normalisation would fold away
-           "koi8-r\x0b", "utf-8\x1f", "windows-1252\x1c", "\x0bshift_jis", "Koi8-r\x0b", "iso-8859-2\x1d"]
+           "koi8-r\x0b", "utf-8\x1f", "windows-1252\x1c", "\x0bshift_jis", "Koi8-r\x0b", "iso-8859-2\x1d", ""]
 # only usable as *_encoding arguments (not ASCII)
 INVALID_ARG_ONLY = ["koi8-r\xa0", "\u212aoi8-r", "utf-8\u2003", "\u017fhift_jis"]
 BOMS = {"utf-8": codecs.BOM_UTF8, "utf-16le": codecs.BOM_UTF16_LE, "utf-16be": codecs.BOM_UTF16_BE}
@@ -340,6 +340,7 @@ def gen_doc(rng):
     args["likely"] = _arg(rng, p)
     args["default"] = _arg(rng, p)
     case["args"] = args
+    case["bytes_args"] = sorted(k for k in args if args[k] is not None and rng.random() < 0.2)
     parts = []
     esc_doc = rng.random() < 0.1
     if esc_doc:
@@ -448,9 +449,16 @@ def kwargs_of(case):
     kw = {}
     names = {"override": "override_encoding", "transport": "transport_encoding", "parent": "same_origin_parent_encoding",
              "likely": "likely_encoding", "default": "default_encoding"}
+    as_bytes = case.get("bytes_args") or []
     for k, name in names.items():
         if a.get(k) is not None:
-            kw[name] = a[k]
+            v = a[k]
+            if k in as_bytes:
+                try:
+                    v = v.encode("ascii")      # callers may pass labels as bytes (e.g. straight from an HTTP header)
+                except UnicodeEncodeError:
+                    pass
+            kw[name] = v
     return kw
 
 
@@ -681,6 +689,8 @@ def shrinks(case):
     for k in list(a):
         if a[k] is not None:
             yield dict(case, args=dict(a, **{k: None}))
+    if case.get("bytes_args"):
+        yield dict(case, bytes_args=[])
     if case.get("torn"):
         yield dict(case, torn=0)
     if case.get("container"):
@@ -710,7 +720,7 @@ def describe(case):
     truth, rule, _info = ground_truth(dict(case, _effective_bom=ebom), len(payload), decls)
     shown = payload if len(payload) <= 300 else payload[:300] + b"...(%d bytes)" % len(payload)
     return {"bytes": repr(shown), "args": {k: v for k, v in case["args"].items() if v is not None}, "bom": case.get("bom"),
-            "decls": decls, "ground_truth": truth, "rule": rule, "kind": case["kind"], "chunk": case["chunk"],
+            "bytes_args": case.get("bytes_args"), "decls": decls, "ground_truth": truth, "rule": rule, "kind": case["kind"], "chunk": case["chunk"],
             "src": c05._short_src(case["src"]), "torn": case.get("torn", 0), "fragment_container": case.get("container")}
 
 
